@@ -137,9 +137,10 @@ pub fn apply(ev: &Value) -> Vec<Value> {
     let name = ev["ev"].as_str().expect("ev");
     let inp = &ev["in"];
     // relabelled replay of a function-level event (see shape::up): the logged event keeps the small ids
-    // ("evaluate": the instance-level action whose every variable id -- declarations, functions, dependency keys, hints,
+    // ("evaluate", "commute", "evaluate_samples": the instance-level actions whose every variable id -- declarations, functions, dependency keys, hints,
     //  state, and on the way back solution state, reported variables, used ids -- goes through the same relabelling)
-    const LIFTABLE: [&str; 9] = ["eval_fn", "partial_fn", "subst_fn", "arith", "fn_info", "ctor", "eval_bound", "content_factor", "evaluate"];
+    const LIFTABLE: [&str; 11] = ["eval_fn", "partial_fn", "subst_fn", "arith", "fn_info", "ctor", "eval_bound", "content_factor", "evaluate",
+                                  "commute", "evaluate_samples"];
     set_lift(if LIFTABLE.contains(&name) { inp.get("lift").and_then(|m| m.as_str()) } else { None });
     if LIFTABLE.contains(&name) && inp.get("lift").and_then(|m| m.as_str()) == Some("E") {
         set_lift_top(max_var_id(inp));
